@@ -1,5 +1,6 @@
 import MlModel.Lemmas.ConfusionSharding
 import MlModel.Model.Agg.ConfusionHeap
+import MlModel.Lemmas.ConfusionSamplewise
 /-!
 # C11 (classification family) — merge is associative, commutative, has the fresh state as unit and
 never modifies its operand
@@ -201,4 +202,22 @@ theorem C11_classification_heap_refines (h : Heap) (a b : CMRef) (ha : a.refs.No
     cell_set_ne _ _ _ _ (Ne.symm a34), cs _ _ _ (by simpa using i3), cs _ _ _ (by simpa using i4)]
 
 end heap
+/-! ## `SamplewiseClassification.merge` -/
+
+/-- `merge` of samplewise accumulators is commutative and associative with the fresh accumulator as
+unit (states are compared observationally: the map metric ↦ `MeanState(total, count)` that
+`result()` reads) -/
+theorem C11_classification_samplewise_merge (a b d : SwState) :
+    swMerge a b = swMerge b a ∧ swMerge (swMerge a b) d = swMerge a (swMerge b d) ∧
+    swMerge SwState.empty a = a ∧ swMerge a SwState.empty = a :=
+  ⟨swMerge_comm a b, swMerge_assoc a b d, swMerge_empty_left a, swMerge_empty_right a⟩
+
+/-- `add` never looks at the state it updates: it is `merge` with the batch's own contribution
+(so updates of one accumulator cannot leak into another, and `result()` — a pure function of the
+state — can be read between updates without changing anything) -/
+theorem C11_classification_samplewise_add_is_merge (sqrt : Rat → Rat) (c : Cfg) (st : SwState) (b : Batch) :
+    swAdd sqrt c st b = (swAdd sqrt c SwState.empty b).map
+      fun (r : List (Generated.Metric × List Rat) × SwState) => (r.1, swMerge st r.2) :=
+  swAdd_eq sqrt c st b
+
 end MlModel.C11
